@@ -197,6 +197,9 @@ func procMode(seed uint64, rounds int) {
 		// an earlier script line leaves a background process behind and returns; the cancel comes while a later line runs
 		"earlier": {Concurrency: 64, Tasks: map[string]TaskDef{"t": {Script: []string{
 			"VERIF_MARK={{.mark}}E bash {{.efile}}", "VERIF_MARK={{.mark}} bash {{.file}}"}}}},
+		// the tree is a background command of the interpreter; the last foreground command handles the interrupt and exits by itself
+		"interplast": {Concurrency: 64, Tasks: map[string]TaskDef{"t": {Script: []string{
+			"VERIF_MARK={{.mark}} bash {{.file}} </dev/null >/dev/null 2>&1 &", "bash {{.tfile}}"}}}},
 		"two": {Concurrency: 64, Tasks: map[string]TaskDef{
 			"t": {Script: []string{"VERIF_MARK={{.mark}} bash {{.file}}"}},
 			"u": {Script: []string{"VERIF_MARK={{.mark}} sleep 300"}}}},
@@ -218,9 +221,32 @@ func procMode(seed uint64, rounds int) {
 		tree := genTree(r, 1+r.Intn(3))
 		rd.count++
 		file := filepath.Join(dir, fmt.Sprintf("top_%d.sh", rd.count))
-		_ = os.WriteFile(file, []byte(rd.render(tree)+"\n"), 0755)
+		// the top-level shell of the tree may handle the interrupt itself and exit normally (instead of dying from it)
+		trapExit := r.Chance(1, 4)
+		forced := ""
+		switch round % 9 {
+		case 2:
+			// the leader handles the interrupt and exits normally; a child ignores it and does not hold the output pipes
+			tree = &Node{Kind: "par", Children: []*Node{{Kind: "sleep", IgnoreInt: true, Detach: true}}}
+			trapExit, forced = true, "tree"
+		case 4:
+			// a background command of the interpreter ignores the interrupt; the last foreground command exits by itself
+			tree = &Node{Kind: "par", Children: []*Node{{Kind: "sleep"}}}
+			trapExit, forced = false, "interplast"
+		}
+		content := rd.render(tree) + "\n"
+		if forced == "interplast" {
+			content = "trap '' INT\n" + content // the whole background command ignores the interrupt
+		}
+		if trapExit {
+			content = "trap 'exit 0' INT\n" + content
+		}
+		_ = os.WriteFile(file, []byte(content), 0755)
 		mark := fmt.Sprintf("m%d_%d_%d", os.Getpid(), seed, round)
-		pipe := []string{"tree", "tree", "interp", "two", "earlier", "interpbg"}[r.Intn(6)]
+		pipe := []string{"tree", "tree", "interp", "two", "earlier", "interpbg", "interplast"}[r.Intn(7)]
+		if forced != "" {
+			pipe = forced
+		}
 		if os.Getenv("REALRUN_PIPE") != "" {
 			pipe = os.Getenv("REALRUN_PIPE")
 		}
@@ -229,10 +255,12 @@ func procMode(seed uint64, rounds int) {
 		}
 		efile := filepath.Join(dir, "earlier.sh")
 		_ = os.WriteFile(efile, []byte("sleep 300 >/dev/null 2>&1 </dev/null &\n"), 0755)
-		rec := map[string]interface{}{"kind": "proc", "round": round, "pipeline": pipe, "tree": tree, "mark": mark}
+		tfile := filepath.Join(dir, "traplast.sh")
+		_ = os.WriteFile(tfile, []byte("trap 'exit 0' INT\nsleep 300\n"), 0755)
+		rec := map[string]interface{}{"kind": "proc", "round": round, "pipeline": pipe, "tree": tree, "mark": mark, "trap_exit": trapExit}
 		script, _ := os.ReadFile(file)
 		rec["script"] = string(script)
-		id, st, msg := a.Schedule(pipe, map[string]interface{}{"mark": mark, "file": file, "efile": efile})
+		id, st, msg := a.Schedule(pipe, map[string]interface{}{"mark": mark, "file": file, "efile": efile, "tfile": tfile})
 		if st != 202 {
 			rec["ok"], rec["what"] = false, fmt.Sprintf("schedule: %d %s", st, msg)
 			emit(rec)
@@ -240,7 +268,7 @@ func procMode(seed uint64, rounds int) {
 		}
 		// cancel while the tree is still being built - only for trees in which no process exits by itself, so that
 		// "the command had returned before the cancel" is never a matter of milliseconds
-		early := r.Chance(1, 3) && !hasNoWait(tree)
+		early := r.Chance(1, 3) && !hasNoWait(tree) && forced == ""
 		if early {
 			// cancel while the tree is still being built
 			for i := 0; i < 500 && len(procsWithMark(mark)) == 0; i++ {
